@@ -153,13 +153,15 @@ def render_stmt(shape, k, dirs):
     raise KeyError(shape)
 
 
-def render(events, shapes, bare=False):
-    """bare: every run of source lines opens with an empty prompt line (a bare '>>>' used as spacing)"""
+def render(events, shapes, bare=False, spacing=0):
+    """bare: every run of source lines opens with an empty prompt line (a bare '>>>' used as spacing);
+    spacing: that many empty prompt lines behind every block directive (it is a block directive all the same)"""
     lines = ['>>>'] if bare else []
     j = 0
     for n, ev in enumerate(events):
         if ev[0] == 'block':
             lines.append('>>> # %s: ' % marker(n, ev[1]) + ', '.join(dir_text(d) for d in ev[1]))
+            lines += ['>>>'] * spacing
         else:
             src, want = render_stmt(shapes[j % len(shapes)], ev[2], ev[1])
             j += 1
@@ -364,6 +366,8 @@ def run(ctx):
     for idx, events in enumerate(gen_events(ctx)):
         shapes = SHAPES[idx % len(SHAPES):] + SHAPES[:idx % len(SHAPES)]
         cases.append(dict(doc=render(events, shapes, bare=(idx % 5 == 2)), expect=spec_trace(events), events=events))
+        if idx % 4 == 1 and any(e[0] == 'block' for e in events):
+            cases.append(dict(doc=render(events, shapes, bare=(idx % 8 == 1), spacing=1 + idx % 3), expect=spec_trace(events), events=events))
     # default options behave like a leading block directive
     rng = ctx.rng('defaults')
     for _ in range(150 if ctx.tier == 'quick' else 2000):
